@@ -318,4 +318,4 @@ Theorem closed_forever_reach evs0 evs s s' st y :
   nth_error (streams s) st = Some y -> sm_cli y <> COpen ->
   exists y' k, nth_error (streams s') st = Some y' /\ sm_cli y' = sm_cli y /\
                sm_pending y' = skipn k (sm_pending y).
-Proof. intros R0 R. apply closed_forever; [exact (reachable_inv _ _ R0)|exact R]. Qed.
+Proof. intros R0 R. apply (closed_forever evs); [exact (reachable_inv _ _ R0)|exact R]. Qed.
